@@ -306,6 +306,9 @@ def subject(ks, sname):
     if kind == 'doc':
         d = DOCS[int(arg)]
         return dict(document=d), d, d
+    if kind == 'docba':           # the same octets handed over as a bytearray (signing) and as a memory-backed bytes copy (verifying)
+        d = DOCS[int(arg)]
+        return dict(document=d), bytearray(d), bytearray(d)
     if kind == 'docstr':          # a str given to sign(): hashed as its UTF-8 octets, binary document
         d = TEXTS[int(arg)]
         return dict(document=d.encode('utf-8')), d, d
@@ -735,6 +738,7 @@ def forward_cases(tier, rnd):
         for i in range(len(DOCS) - (0 if tier == 'thorough' else 1)):
             add(op='sign', subject='doc:%d' % i, opts=dict(base, hash=h))
         add(op='sign', subject='docstr:4', opts=dict(base, hash=h))
+        add(op='sign', subject='docba:3', opts=dict(base, hash=h))
         add(op='sign', subject='text:3', opts=dict(base, hash=h))
         add(op='subsign', subject='doc:1', opts=dict(base, hash=h))
     for i in range(len(TEXTS)):
